@@ -6,6 +6,7 @@ import (
 	"io"
 	"log"
 	"os"
+	"time"
 
 	"github.com/brocaar/lorawan"
 	"verifharness/internal/cases"
@@ -14,6 +15,8 @@ import (
 )
 
 func decode(b []byte) (q lorawan.PHYPayload, s string, ok bool) {
+	cases.Begin(fmt.Sprintf("PHYPayload.UnmarshalBinary:%x", b), map[string]interface{}{"bytes": fmt.Sprintf("%x", b)})
+	defer cases.End()
 	defer func() {
 		if r := recover(); r != nil {
 			s, ok = cq.Panic, false
@@ -61,6 +64,7 @@ func main() {
 	s := cases.New("C08", dir, "LW.Corr.C08",
 		"byte strings: uniform random length 0..256; every MHDR byte with typical lengths; model-guided data frames for every FOptsLen 0..15 with total lengths 7+ol-1 .. 7+ol+3 and FPort 0 / non-0 (reaches every branch of the MACPayload decoder); join-request / rejoin / join-accept / proprietary lengths around the accepted ones; single- and multi-bit mutations, truncations and extensions of valid frames. Non-trivial: strings the decoder accepts.")
 	s.ShardSize = 300
+	s.Watchdog(3 * time.Second)
 	n := 150
 	if thorough {
 		n = 6000
